@@ -1039,8 +1039,15 @@ def run_history(case, fl):
                     ser = cont[src].serialize()
                     cont[key] = ser
                     cont[key2] = ser
-                    kids[key] = copy.deepcopy(child_model)
-                    kids[key2] = copy.deepcopy(child_model)
+                    # (serialisation also separates objects that were stored under two keys inside
+                    # the child: the copies must not keep that aliasing)
+                    def fresh_copy():
+                        if level == 0:
+                            return _unalias({"b": child_model})["b"]
+                        return Cat(child_model.rows, {k: copy.deepcopy(v) for k, v in child_model.cols.items()})
+
+                    kids[key] = fresh_copy()
+                    kids[key2] = fresh_copy()
                 else:
                     cont[key] = cont[src]
                     kids[key] = kids[src]  # same object in the model, too
